@@ -726,6 +726,39 @@ def schema_readers(F):
     return out
 
 
+def _hands_own_node_through_table(F, readers):
+    """functions that call, through a function pointer looked up in a table of the crate, one of `readers` with their own XML node
+    parameter"""
+    from engine.rulekit import inline as I
+    from engine.rulekit import mir as M
+    out = []
+    inl = I.Inliner(F.lib)
+    for b in scans.bodies(F.lib):
+        if b.get("closure") or "tests::" in b["path"] or "yaserde_tests" in b["path"]:
+            continue
+        B = M.Body(b)
+        for bb, t in B.calls():
+            f = t.get("func") or {}
+            if f.get("k") not in ("copy", "move"):
+                continue
+            srcs = inl._tables_behind(B, f)
+            if not srcs:
+                continue
+            entries = {}
+            for kind, p in srcs:
+                if kind == "const":
+                    entries.update(inl._table_entries(p))
+                else:
+                    entries[p] = kind
+            if not (set(entries) & set(readers)):
+                continue
+            for a in t.get("args", []):
+                os_ = M.trace(B, a, ())
+                if os_ and all(o.kind == "arg" and "roxmltree::Node<" in B.local_ty(o.local) and not o.fields() for o in os_):
+                    out.append(b["path"])
+    return out
+
+
 def schema_reader_calls(F):
     """[(caller, call node, normal form of the XML node handed over, context)] for every call of a schema reader (and of a function
     that hands its own node parameter on to one) outside the readers themselves"""
@@ -756,6 +789,11 @@ def schema_reader_calls(F):
         for caller, e, nf, ctx in sites:
             if caller not in readers and isinstance(nf, tuple) and nf[0] == "param":
                 readers.add(caller)
+                grew = True
+        # .. also through a table of readers (`reader_for(&ROOT_READERS, name)` called with the function's own node)
+        for fn_ in _hands_own_node_through_table(F, readers):
+            if fn_ not in readers:
+                readers.add(fn_)
                 grew = True
         if not grew:
             break
